@@ -571,9 +571,8 @@ theorem blamedAll_head (k : Kind) (r : Raw) (extra : Option (Source × Raw)) :
 
 /-! ### the file layer -/
 
-/-- an option without a config section has no gallia.toml key: the file cannot configure it, whatever it holds -/
-theorem unsectioned_not_in_file (doc : Tree) (name : Str) : fileValue doc none name = none := rfl
-
+/-- an option has a gallia.toml key exactly when it has a config section (its own or its class's): without one the file
+    cannot configure it, whatever it holds (`unsectioned_ignores_file`) -/
 theorem configKey_none_iff (sect : Option Str) (name : Str) : configKey sect name = none ↔ sect = none := by
   cases sect with
   | none => simp [configKey]
